@@ -533,6 +533,14 @@ func main() {
 			out.put(fmt.Sprintf("scan %s %s %s", encStr(prefix), encStrs(defTags(nil)), encStr(src)), res, verdict("C17", c17), verdict("C08", panicOnly(res)))
 		}
 		out.close()
+	case "strtmpl": // <seed> <n> <outdir>
+		seed, _ := strconv.ParseUint(os.Args[2], 10, 64)
+		n, _ := strconv.Atoi(os.Args[3])
+		out := openOut(os.Args[4])
+		for i := 0; i < n; i++ {
+			genStrTmplCase(NewRng(seed, uint64(i)), out, i)
+		}
+		out.close()
 	case "plain": // <seed> <n> <outdir>
 		seed, _ := strconv.ParseUint(os.Args[2], 10, 64)
 		n, _ := strconv.Atoi(os.Args[3])
